@@ -10,7 +10,8 @@ import lib
 ID = 'C14'
 GEN_FILES = ['T_require', 'T_files_build', 'T_lexer', 'T_parser']
 COQ_PROPERTY = 'theories/Properties/C14.vo'
-COQ_EXTRA = ['theories/Proofs/ReqEmbedInstProofs.vo', 'theories/Proofs/SpecLexChunk.vo']
+COQ_EXTRA = ['theories/Proofs/ReqEmbedInstProofs.vo', 'theories/Proofs/SpecLexChunk.vo',
+             'theories/Proofs/ReqEmbedEchoGood.vo', 'theories/Proofs/ReqEmbedSpecTokens.vo']
 MODEL = ('ExC14', 'c14_main.ml')
 MONITOR = ('MonC14', 'c14_mon_main.ml')
 CASE_TIMEOUT = 60
@@ -31,19 +32,21 @@ ASSUMPTIONS = [
     'token, as it silently does after a `return`) is outside C14 (that is C07 / C08); such runs are compared with '
     'the model but not judged',
 ]
-PARTIAL = ('The token-level clause is proved except for two residues. C14_tokens_spec_partial states it for the concrete '
-           'stack against the reference tokenizer with NO hypothesis about the lexer: the chunking of the reference '
-           'tokenizer (C14_reference_chunking / _final_lf, Proofs/SpecLexChunk.v) and the token-faithful echo of the lexer '
-           'model (C14_echo_views, from C06\'s model_holds_C06 / echo_crlf_only and C14_echo_predicate_suffices) are '
-           'theorems. Residue 1: a side condition on the line list handed to the final parse (every line but the last '
-           'ends in LF and is made of bytes) which fails when a package\'s last line has no newline (build.py then appends '
-           'a separate newline line; the lexer stack has no chunking lemma for that split). Residue 2: that the echoed '
-           'code of a STRIPPED package has the file\'s tokens minus its game-loop definitions is only proved relative to a '
-           'hypothesis (C14_block_tokens_partial); unconditionally proved is that stripping only removes tokens '
-           '(C14_strip_only_removes). Both are checked on every run by the extracted monitor holds_C14. '
+PARTIAL = ('The token-level clause is a theorem (C14_tokens_spec: tokens of the cart = package preamble ++ per table entry '
+           '(header ++ echoed package ++ end) ++ require() preamble ++ the main program\'s tokens, unchanged; reference '
+           'tokenizer, concrete stack, NO hypothesis about lexer, chunking, echo or constants) for a main program of bytes '
+           'in the dialect and table entries meeting three per-entry conditions (header line and echoed code in the dialect, '
+           'echoed lines of bytes all ending in LF). C14_pkg_conditions_unstripped proves those conditions, and that the '
+           'echoed code has exactly the file\'s tokens, for packages embedded with {use_game_loop=true} from byte files of '
+           'the dialect that are empty or end in a newline. RESIDUAL, visible in the statements: (1) a package whose file '
+           'lacks a final newline (build.py adds a separate newline line; the lexer stack\'s chunking theorem does not '
+           'cover a line without LF followed by it); (2) packages embedded WITHOUT their game loop (the default): that the '
+           're-lexed text is in the dialect, ends in a newline and has the file\'s tokens minus the top-level game-loop '
+           'definitions is only proved relative to a hypothesis (C14_block_tokens_partial; it needs the parser\'s statement '
+           'ranges to agree with the reference description); unconditionally proved is that stripping only removes tokens '
+           '(C14_strip_only_removes). Both residues are checked on every run by the extracted monitor holds_C14. '
            'C14_structure_bytes / C14_unstripped_block assume a BYTE-faithful echo, which picotool\'s lexer has only for '
-           'sources whose quoted strings are spelled canonically (C06: other strings are re-spelled with the same '
-           'denotation).')
+           'sources whose quoted strings are spelled canonically (C06: other strings are re-spelled).')
 CLAIM = dict(
     text=("Theorems (Coq, closed under the global context) about a model of build.py's _evaluate_require / "
           "RequireWalker / _prepend_package_lua, proved for EVERY lexer, parser, walker, name check, file map and load "
@@ -55,11 +58,10 @@ CLAIM = dict(
           "requirer, each a located+parsed+stripped file; cycles terminate), C14_errors* (walker exception / refused "
           "name / missing file => the build returns an error and no output), C14_terminates(_now) (1 + number of "
           "require strings is enough fuel; more fuel never changes the result), C14_dfs_exact (the search computes "
-          "exactly the fuel-free depth-first relation Run). Token-level clause: C14_reference_chunking (the reference "
-          "tokenizer lexes a text ending in LF independently of what follows), C14_echo_predicate_suffices / "
-          "C14_echo_views (the lexer model's echo has the source's token views) and C14_tokens_spec_partial (tokens of the "
-          "cart = preamble ++ blocks ++ loader ++ main's tokens, no lexer hypothesis left); partial only in two named "
-          "residues (see partial). Tie: correspondence of the extracted model (full lexer+parser+walker stack) with the real "
+          "exactly the fuel-free depth-first relation Run). Token-level clause: C14_tokens_spec (no lexer / chunking / echo "
+          "hypothesis left: uses C14_reference_chunking, C14_echo_predicate_suffices, C14_echo_views, C14_echo_lines_good, "
+          "which rest on C06 / C07's theorems about the lexer model) with per-entry conditions that "
+          "C14_pkg_conditions_unstripped proves for {use_game_loop=true} packages; partial in two named residues (see partial). Tie: correspondence of the extracted model (full lexer+parser+walker stack) with the real "
           "`p8tool build` on generated package graphs (code bytes of OUT.p8, error class), RequireWalker alone on "
           "every generated file, and the extracted instance predicate holds_C14 (Spec/ + Base/ only: reference "
           "tokenizer, token-level require / game-loop / load-path description written from the README) on the real "
